@@ -505,6 +505,36 @@ func genC06(r *Runner) {
 			cases = append(cases, one(l, 2, "assign-o3k1"))
 		}
 	}
+	// context cancellation before / during / after the first request: every source then fails, so no
+	// certificate naming a source may come out OK or NonRevokable
+	for _, cancel := range []string{"before", "during", "after"} {
+		for no := 0; no <= 2; no++ {
+			for nk := 0; nk <= 2; nk++ {
+				if no+nk == 0 {
+					continue
+				}
+				for _, ob := range []string{"good", "revoked", "transport-error"} {
+					for _, kb := range []string{"clean", "lists-cert"} {
+						l := levelSpec{ocspURLs: urlsN(ocspURL, 0, no), crlURLs: urlsN(crlURL, 0, nk)}
+						for i := 0; i < no; i++ {
+							l.ocspBeh = append(l.ocspBeh, ob)
+						}
+						for i := 0; i < nk; i++ {
+							l.crlBeh = append(l.crlBeh, kb)
+						}
+						c := one(l, 2, "cancel-"+cancel)
+						c.cancel = cancel
+						cases = append(cases, c)
+					}
+				}
+			}
+		}
+		for i := 0; i < 60; i++ {
+			c := randomMultiCase(rng, "cancel-"+cancel+"-multi", []string{"good", "revoked", "unknown", "transport-error"}, []string{"clean", "lists-cert", "fetch-error"}, 1+rng.Intn(3), 2)
+			c.mode = "full"
+			c.cancel = cancel
+			cases = append(cases, c)
+		}
+	}
 	runChainCases(r, cases)
-	// cancellation before / during the first request: see C17 harness (needs the barrier transport)
 }
